@@ -79,9 +79,9 @@ CtlStart ==
   \/ \E p \in Pods : /\ PodLive(p) /\ ~HasAll(p)                                             \* bind a pod
         /\ \E y \in InUseEnis : \E x4 \in IdleOn(y.e, 4) :
               LET b4 == [x4 EXCEPT !.p = p, !.u = pods[p].u] IN
-              IF conf.v6 THEN \E x6 \in IdleOn(y.e, 6) :
-                                 CrUpdate(crE, (crI \ {x4, x6}) \cup {b4, [x6 EXCEPT !.p = p, !.u = pods[p].u]})
-              ELSE CrUpdate(crE, Replace(crI, x4, b4))
+              (IF conf.v6 THEN \E x6 \in IdleOn(y.e, 6) :
+                                  CrUpdate(crE, (crI \ {x4, x6}) \cup {b4, [x6 EXCEPT !.p = p, !.u = pods[p].u]})
+               ELSE CrUpdate(crE, Replace(crI, x4, b4)))
         /\ HRec /\ UNCHANGED <<pend, pc>>
   \/ \E x \in Bound(crI) : CrUpdate(crE, Replace(crI, x, [x EXCEPT !.p = 0, !.u = 0])) /\ HRec /\ UNCHANGED <<pend, pc>>     \* release
   \/ \E x \in Bound(crI) : /\ PodLive(x.p) /\ pods[x.p].u # x.u                                                            \* UID refresh
